@@ -398,7 +398,7 @@ type c10Case struct {
 
 func genCaseC10(t *rapid.T) *c10Case {
 	strategy := rapid.SampledFrom([]string{"R", "A", "X", "RA"}).Draw(t, "strategy")
-	p := Profile{Strategy: strategy, MaxDepth: rapid.IntRange(2, 4).Draw(t, "maxDepth")}
+	p := Profile{Strategy: strategy, MaxDepth: rapid.IntRange(2, 4).Draw(t, "maxDepth"), Mutation: true}
 	if strategy == "X" {
 		p.Abstract = rapid.Bool().Draw(t, "abstract")
 	} else {
